@@ -165,6 +165,7 @@ fn answers(h: &SourceMapHermes, c: &Case, refs: &[Option<RefSource>], stage: &st
     for off in offsets {
         obs.inner_evals += 1;
         let q = (0u32, off);
+        let mut inside_range = false;
         let acceptable: Vec<Option<String>> = match ref_lookup_index(&pos, q) {
             None => vec![None],
             Some(i) => {
@@ -174,7 +175,14 @@ fn answers(h: &SourceMapHermes, c: &Case, refs: &[Option<RefSource>], stage: &st
                     .filter(|(k, t)| if exact { *k == i } else { t.get_dst() == pos[i] })
                     .map(|(_, t)| {
                         if t.has_source() {
-                            ref_scope(refs.get(t.get_src_id() as usize).and_then(|r| r.as_ref()), t.get_src_line(), t.get_src_col())
+                            // a lookup that lands inside a range mapping reports the original column advanced by
+                            // the distance from the token's generated column (C07); that is the token's original
+                            // position the scope is resolved at
+                            let col = if t.is_range() { t.get_src_col().saturating_add(off - t.get_dst_col()) } else { t.get_src_col() };
+                            if t.is_range() && off > t.get_dst_col() {
+                                inside_range = true;
+                            }
+                            ref_scope(refs.get(t.get_src_id() as usize).and_then(|r| r.as_ref()), t.get_src_line(), col)
                         } else {
                             None
                         }
@@ -182,6 +190,10 @@ fn answers(h: &SourceMapHermes, c: &Case, refs: &[Option<RefSource>], stage: &st
                     .collect()
             }
         };
+        obs.class_if(inside_range, "bytecode-offset-inside-a-range-mapping");
+        if inside_range && acceptable.iter().any(|a| a.is_some()) {
+            obs.class("bytecode-offset-inside-a-range-mapping(scope found)");
+        }
         let got = guard(|| h.get_original_function_name(off).map(str::to_string)).map_err(|p| format!("{stage}: get_original_function_name({off}): {p}"))?;
         if !acceptable.contains(&got) {
             return Err(format!("{stage}: get_original_function_name({off}) = {got:?}, expected one of {acceptable:?}"));
@@ -338,7 +350,7 @@ fn spec(allow_faults: bool) -> BoxedStrategy<FnMapSpec> {
 fn cases(t: Tier) -> BoxedStrategy<Case> {
     let p = MMParams {
         max_tokens: t.pick(24, 60),
-        ranges: false,
+        ranges: true,
         max_sources: 5,
         max_names: 3,
         big_lines: false,
@@ -400,7 +412,7 @@ pub const DEF: PropertyDef = PropertyDef {
            on lines 1..6 encoded Metro-style by the harness (column delta reset at ';', running name/line deltas, trailing zero fields \
            omitted at random, ';' at arbitrary segment boundaries), name indices possibly out of range, ill-formed mapping strings (cut-off \
            value, 14-digit value, foreign character) for single sources; metadata list shorter/longer than sources; tokens before/on/after \
-           the entries, sourceless tokens. Oracle: independent Metro reader + linear scan for every token, for bytecode offsets (every \
+           the entries, sourceless tokens, range tokens (a bytecode offset inside a range mapping resolves the scope at the advanced original column). Oracle: independent Metro reader + linear scan for every token, for bytecode offsets (every \
            line-0 token column +-1, 0, u32::MAX, random) through both entry points, None for non-zero lines; all answers repeated after \
            to_writer+decode. Non-trivial = >= 2 sources with function maps of >= 3 entries on >= 2 lines and an omitted trailing field",
     assumptions: &[
